@@ -147,11 +147,13 @@ RewriteReasons(r) ==
     (IF r.has_out THEN {} ELSE {"rewrite-produced-nothing"})
     \* the edit of a rewriter starts at the node its rule matched and stays inside it (no rewriter here widens its edit)
     \cup (IF \A k \in 1..Len(r.cands) : \A h \in 1..Len(r.cands[k].hits) :
-               r.cands[k].hits[h].pos = r.cands[k].s /\ r.cands[k].hits[h].pos + r.cands[k].hits[h].del <= r.cands[k].e
+               IF r.cands[k].hits[h].by = "expanding-fix"
+               THEN r.cands[k].hits[h].pos <= r.cands[k].s /\ r.cands[k].hits[h].pos + r.cands[k].hits[h].del <= r.cands[k].e
+               ELSE r.cands[k].hits[h].pos = r.cands[k].s /\ r.cands[k].hits[h].pos + r.cands[k].hits[h].del <= r.cands[k].e
           THEN {} ELSE {"rewriter-edit-is-not-at-the-node-its-rule-matched"})
     \cup (IF r.out_utf8 THEN {} ELSE {"rewrite-not-utf8"})
     \cup (IF ~r.has_out THEN {}
-          ELSE IF r.join THEN (IF StripIndent(r.out) = StripIndent(RewriteJoin(es, r.cs, r.joiner)) THEN {} ELSE {"rewrite-joined-text"})
+          ELSE IF r.join THEN (IF StripIndent(r.out) = StripIndent(RewriteJoinIn(es, r.cs, r.joiner, r.ce - r.cs)) THEN {} ELSE {"rewrite-joined-text"})
           ELSE IF /\ \A k \in 1..Len(acc) : InBounds(Len(old), acc[k])
                   /\ OrderedDisjoint(acc)
                   /\ StripIndent(r.out) = StripIndent(Splice(old, acc))
